@@ -1,0 +1,62 @@
+//go:build verif
+
+// Contracts for contract-based deductive verification (govc, /verif).
+// This file contains comments only; it adds no code to the package.
+// (Separate from verif_contracts.go because here the peer container is looked into,
+// while there it is an abstract set.)
+
+package kademlia
+
+//@ opaque github.com/gauss-project/aurorafs/pkg/boson.Address as Addr
+
+//@ # ---- assumed, proved in pkg/topology/pslice (C21) ------------------------------------------------
+//@ spec func shapeP(s *pslice.PSlice) bool = s != nil && s.maxBins >= 1 && s.maxBins <= 256 && len(s.peers) == s.maxBins
+//@ extern func (*github.com/gauss-project/aurorafs/pkg/topology/pslice.PSlice).ShallowestEmpty
+//@   requires shapeP(s)
+//@   ensures result1 ==> forall b :: 0 <= b && b < s.maxBins ==> len(s.peers[b]) != 0
+//@   ensures !result1 ==> int(result0) < s.maxBins && len(s.peers[int(result0)]) == 0 && forall b :: 0 <= b && b < int(result0) ==> len(s.peers[b]) != 0
+//@   assigns nothing
+//@ # total number of peers (the sum of the bin sizes)
+//@ spec func plen(s *pslice.PSlice) int
+//@ extern func (*github.com/gauss-project/aurorafs/pkg/topology/pslice.PSlice).Length
+//@   requires s != nil
+//@   ensures result == plen(s) && result >= 0
+//@   assigns nothing
+//@ # the reachability filter answers true for a peer to pass over: a function of the peer
+//@ spec func unreach(a boson.Address) bool
+//@ extern func github.com/gauss-project/aurorafs/pkg/topology/kademlia.peerFilterFunc
+//@   ensures result == unreach(peer)
+//@   assigns nothing
+//@ # rc(s, b, j): how many of the first j peers of bin b pass the filter (are reachable);
+//@ # full(s, b): how many peers of bin b are reachable
+//@ spec func rc(s *pslice.PSlice, b int, j int) int
+//@ axiom rc-of-nothing: forall s *pslice.PSlice, b int :: rc(s, b, 0) == 0
+//@ axiom rc-step: forall s *pslice.PSlice, b int, j int, k int :: 0 <= b && b < len(s.peers) && 0 <= j && k == j + 1 && k <= len(s.peers[b]) ==> rc(s, b, k) == rc(s, b, j) + ite(unreach(s.peers[b][j]), 0, 1)
+//@ spec func full(s *pslice.PSlice, b int) int = rc(s, b, len(s.peers[b]))
+
+//@ # neighbourhood depth.  The two passes over the bins (EachBinRev, EachBin) and the visitors are
+//@ # executed on their bodies: the loops below are those of the two iteration methods.
+//@ func recalcDepth
+//@   property C22
+//@   inline PSlice.EachBinRev PSlice.EachBin recalcDepth$1 recalcDepth$2
+//@   requires shapeP(peers) && peers.maxBins <= 32 && filter != nil && nnLowWatermark == 3 && quickSaturationPeers >= 1
+//@   ensures never-above-the-radius: result <= radius
+//@   ensures zero-with-at-most-three-peers: plen(peers) <= 3 ==> result == 0
+//@   ensures shallower-bins-hold-the-quick-saturation-number-of-reachable-peers: forall b :: 0 <= b && b < int(result) ==> full(peers, b) >= quickSaturationPeers
+//@   ensures never-above-an-empty-bin: forall b :: 0 <= b && b < peers.maxBins && len(peers.peers[b]) == 0 ==> int(result) <= b
+//@   loop PSlice.EachBinRev.1 invariant shapeP(s) && 0 <= i && i <= s.maxBins
+//@   loop PSlice.EachBinRev.2 invariant shapeP(s) && 0 <= i && i < s.maxBins && 0 - 1 <= rangeindex && rangeindex < len(peers)
+//@   loop PSlice.EachBin.1 invariant shapeP(s) && 0 - 1 <= i && i < s.maxBins
+//@   loop PSlice.EachBin.2 invariant shapeP(s) && 0 <= i && i < s.maxBins && 0 - 1 <= rangeindex && rangeindex < len(peers)
+//@   # first pass (shallowest bin first): the candidate bin and its count of reachable peers so far
+//@   loop PSlice.EachBinRev.1 invariant binCount <= 1099511627776
+//@   loop PSlice.EachBinRev.1 invariant binCount >= 0 && 0 <= int(shallowestUnsaturated) && int(shallowestUnsaturated) <= i && int(shallowestUnsaturated) < s.maxBins
+//@   loop PSlice.EachBinRev.1 invariant int(shallowestUnsaturated) == i ==> binCount == 0
+//@   loop PSlice.EachBinRev.1 invariant int(shallowestUnsaturated) < i ==> binCount == full(s, int(shallowestUnsaturated)) && (forall b :: int(shallowestUnsaturated) < b && b < i ==> full(s, b) == 0)
+//@   loop PSlice.EachBinRev.1 invariant forall b :: 0 <= b && b < int(shallowestUnsaturated) ==> full(s, b) >= quickSaturationPeers
+//@   loop PSlice.EachBinRev.2 invariant binCount <= 1099511627776 && (int(shallowestUnsaturated) == i ==> binCount <= rangeindex + 1)
+//@   loop PSlice.EachBinRev.2 invariant binCount >= 0 && 0 <= int(shallowestUnsaturated) && int(shallowestUnsaturated) <= i
+//@   loop PSlice.EachBinRev.2 invariant int(shallowestUnsaturated) == i ==> binCount == rc(s, i, rangeindex + 1)
+//@   loop PSlice.EachBinRev.2 invariant int(shallowestUnsaturated) < i ==> binCount == full(s, int(shallowestUnsaturated)) && rc(s, i, rangeindex + 1) == 0 && (forall b :: int(shallowestUnsaturated) < b && b < i ==> full(s, b) == 0)
+//@   loop PSlice.EachBinRev.2 invariant forall b :: 0 <= b && b < int(shallowestUnsaturated) ==> full(s, b) >= quickSaturationPeers
+//@   loop PSlice.EachBinRev.2 invariant peers == s.peers[i]
